@@ -16,19 +16,20 @@ text = f'''## 9. Seeded changes: which check catches which change
 Independent sub-agents were given **only the text of one property (later rounds: of all ten claimed
 properties) and a scratch git worktree** of the repository (under /tmp, nothing from /verif) and asked for
 changes that break a property, still pass the existing tests and need something specific to manifest, each
-with a demonstration that fails with the change and passes without it. Eight rounds: rounds 2–4 were told
+with a demonstration that fails with the change and passes without it. Nine rounds: rounds 2–4 were told
 what earlier rounds had produced and asked for different code locations, clauses and triggers (round 4: bugs
-needing two or more ordering constraints); rounds 5–8 were free to choose the property (round 8 with one
+needing two or more ordering constraints); rounds 5–9 were free to choose the property (round 8 with one
 emphasis per agent: interleavings, faults and retirements, harmless-looking refactorings, easily overlooked
-clauses). Every change was
+clauses; in round 9 two of the four agents hunted for defects of the *unchanged* code instead – section 2). Every change was
 confirmed here before it was kept (`tools/confirm_seeded.py`, in the scratch worktree: demonstration on the
 clean tree → exit 0; `git apply`; demonstration → non-zero; the test files of the touched modules → pass;
 `./check <P> quick` with `VERIF_REPO=<worktree>`; `git checkout`). Kept changes live in `seeded/<id>/`
 (`patch.diff`, `demo.py`, `notes.md`, `meta.json`); `tools/run_seeded.py` re-runs the registered checks
 against all of them (scratch copy + patch, /repo untouched) and writes `seeded/RESULTS.json`
 (`RATE=1`: the whole batch under another seed, counting the reporting runs → `seeded/RESULTS_RATE.json`).
-The scratch worktrees were removed afterwards. After the storage repairs `0570568`/`0e1f71e` ten patches no longer
-applied; they were re-based (`patch_as_produced.diff` keeps the original) and re-confirmed with their demonstrations.
+The scratch worktrees were removed afterwards. After the repairs of rounds 8 and 9 (`0570568`, `0e1f71e`, `a7f16b0`,
+`17aad70`, `797d431`) twenty-one patches no longer applied; they were re-based (`patch_as_produced.diff` keeps the
+earlier form) and re-confirmed with their demonstrations.
 
 **{len(ids)} changes kept**: {len(ids)-len(doc)} are reported by the checks (last full run: all of them, quick tier),
 {len(doc)} are documented misses; {len(retired)} more are retired (`seeded/retired/`: produced against an earlier HEAD and
@@ -42,8 +43,8 @@ a file set, a fork between construction and `with`, a failing disk, a constant s
 small inputs never reach, an empty set of files, a line that ends with the line ending's own character, …);
 each miss was answered by widening the workload, the fault model or the oracle
 – never by special-casing the change – and several of the widenings exposed further genuine defects of the
-original code (section 2: `e0554a8`, `f33bca9`, `f7a9910`; two side observations of round 8 led to `0570568` and
-`0e1f71e`). The scheduler-depth cases are C03-s12 and C03-s10
+original code (section 2: `e0554a8`, `f33bca9`, `f7a9910`; side observations of rounds 8 and 9 led to `0570568`,
+`0e1f71e`, `a7f16b0`, `17aad70` and `797d431`). The scheduler-depth cases are C03-s12 and C03-s10
 (three ordering constraints each): the thorough tier reports them within 700 and 3300 runs, a quick batch
 usually. Some changes were labelled by their authors with a property whose check cannot see them
 (a lost result that shows as a hang → C02/C03 instead of C01; a fork → C18 instead of C11; an edited object
@@ -52,7 +53,8 @@ usually. Some changes were labelled by their authors with a property whose check
 Documented misses: **C01-s10** (needs two calls that overlap on one pool), **C03-s14** (a descriptor leak of
 real `Process` objects over ~500 retirements; simulated processes hold no descriptors), **C04-s12** (not
 soundly decidable: the original code has the same race one slot earlier), **C18-s9** (needs a multi-threaded
-parent), **C18-s10** (needs application code inside the at-fork hook sequence) – reasons in their `meta.json`.
+parent), **C18-s10** (needs application code inside the at-fork hook sequence), **C03-s16** (wrong only under the
+`spawn`/`forkserver` start methods, which the simulator does not model) – reasons in their `meta.json`.
 
 '''
 s = s[:a] + text + table + s[b:]
